@@ -3,6 +3,7 @@
 from __future__ import annotations
 
 import ast
+import re
 import itertools
 from fractions import Fraction
 from typing import Dict, List, Optional, Tuple
@@ -196,7 +197,28 @@ def channels(f: Func, index: Optional[RepoIndex] = None,
             return Aff.sym('s')
         if isinstance(e, ast.Attribute) and e.attr == 'value' and \
                 isinstance(e.value, ast.Attribute) and e.value.attr == 'color':
-            return Aff.sym('c')
+            base = w.expand(e.value.value)
+            if isinstance(base, ast.Name) and base.id in gp:
+                return Aff.sym('c')
+            # the colour of some *other* object (the content of a box, a neighbour): nothing
+            # the space declares bounds it -- a free symbol, so no bound can be proved
+            return Aff.sym('c_of_' + re.sub(r'\W+', '_', src(base))[:40])
+        if isinstance(e, ast.Attribute) and isinstance(e.value, ast.IfExp):
+            # (X if c else Y).attr  ==  X.attr if c else Y.attr
+            e = ast.IfExp(e.value.test, ast.Attribute(e.value.body, e.attr, ast.Load()),
+                          ast.Attribute(e.value.orelse, e.attr, ast.Load()))
+        if isinstance(e, ast.IfExp):
+            try:
+                a_, b_ = aff_of(e.body, leaf), aff_of(e.orelse, leaf)
+            except NonAffine:
+                a_ = b_ = None
+            if a_ is not None and b_ is not None:
+                if a_ == b_:
+                    return a_
+                foreign = [x for x in (a_, b_) if any(str(s_).startswith('c_of_')
+                                                      for s_ in getattr(x, 'c', {}))]
+                if foreign:
+                    return foreign[0]
         ma = max_aff(e)
         if ma:
             return ma[0]
